@@ -93,7 +93,9 @@ class IODesc():
     def __init__(self, rate, channels, starting_channel, type):
         self.rate = rate
         self.channels = channels
-        self.starting_channel = starting_channel or '?'
+        # Bus 0 is a valid starting channel, only a missing one is unknown.
+        self.starting_channel = (
+            starting_channel if starting_channel is not None else '?')
         self.type = type
 
     def __repr__(self):  # Was printOn.
